@@ -5,6 +5,16 @@ ID = "C17"
 COQ_TARGETS = ["props/C17.vo", "model/SemCheck.vo"]
 THEOREMS = [
     ("EG.props.C17", "sem_accounting"),
+    ("EG.props.C17", "C17_http_cap"),
+    ("EG.props.C17", "C17_released_capacity_reusable"),
+    ("EG.props.C17", "C17_close_releases_once"),
+    ("EG.props.C17", "C17_mqtt_cap"),
+    ("EG.props.C17", "C17_mqtt_released_capacity"),
+    ("EG.props.C17", "C17_ideal_never_panics"),
+    ("EG.props.C17", "C17_resize_reordering"),
+    ("EG.props.C17", "C17_refuted_q_newsem_unclamped"),
+    ("EG.props.C17", "C17_refuted_q_grow_release_unchecked"),
+    ("EG.props.C17", "C17_refuted_q_mqtt_connack_fail_leaks"),
 ]
 _HOOK = {"pkg/util/sem/zz_verif_c17_hook.go": "harness/sem/zz_verif_c17_hook.go"}
 HARNESSES = [
